@@ -8,6 +8,7 @@ package main
 import (
 	"verif/harness/suites/j2kgeo"
 	t2s "verif/harness/suites/t2"
+	"verif/harness/suites/t2ht"
 	"verif/harness/vhlib"
 )
 
@@ -15,5 +16,6 @@ func main() {
 	s := vhlib.Suites{}
 	j2kgeo.Register(s)
 	t2s.Register(s)
+	t2ht.Register(s)
 	vhlib.Main(s)
 }
